@@ -229,7 +229,28 @@ PROPS = {
         'trusted': ['propagate call-site summary', 'find_reversed_path ghost summary', 'copy.deepcopy (fresh object graph)'],
         'extra': [{'name': 'batch', 'kind': 'bounded', 'script': 'bounded/batch.py', 'timeout': 1500}],
     },
-    'C17': {'level': 'other', 'claim': 'uc', 'level_note': 'uc', 'trusted': [], 'not_applicable': 'under construction'},
+    'C17': {
+        'level': 'other',
+        'claim': 'Proved on the real code: every element export (Edfa, Fiber, Fused, Roadm, Transceiver .to_json) states the '
+                 'element\'s own settings - gain to 1e-6 dB, tilt to 1e-5 dB, length to 1 mm, loss coefficient to 1e-6 dB/km, '
+                 'delta_p, VOAs, connector and lumped losses, equalisation policy and per-degree targets verbatim; '
+                 'estimate_raman_gain puts back every field of the process-wide NLI and Raman parameters it overrides, and '
+                 'NLIParams/RamanParams rebuilt from their to_json are field-for-field equal; the amplifier design step keeps '
+                 'user/previous operational values (set_one_amplifier contracts shared with C09). The round trip itself '
+                 '(export -> reload -> redesign is a fixed point, same input twice gives the same output, propagation '
+                 'results reproduced) is a bounded stand-in through the real designed_network / network_to_json / '
+                 'network_from_json.',
+        'level_note': 'NOT an unbounded proof of the fixed point: network_from_json (loader) and build_network as a whole are not '
+                      'under contract; per-frequency loss coefficients, RamanFiber and Multiband exports are not under contract; '
+                      'estimate_raman_gain is proved with its two physics callees opaque (assumed not to write SimParams) and '
+                      'only for normal return - an exception inside the Raman solver leaves the temporary settings in place; '
+                      'bounded: line2, ring3, star4[, line3, mesh4] x spans x junctions x power/gain mode x out_voa_auto, per-degree '
+                      'targets, user gain / delta_p, RamanFiber under four SimParams settings, 2-3 rounds, tolerance 2e-6',
+        'trusted': ['create_input_spectral_information call-site summary', 'RamanSolver.calculate_stimulated_raman_scattering '
+                    '(opaque in estimate_raman_gain)', 'namedtuple._asdict', 'str.lower (uninterpreted; stored methods are its '
+                    'fixed points)', 'builtin round (exact decimal rounding)'],
+        'extra': [{'name': 'redesign', 'kind': 'bounded', 'script': 'bounded/redesign.py', 'timeout': 2400}],
+    },
     'C18': {'level': 'other', 'claim': 'uc', 'level_note': 'uc', 'trusted': [], 'not_applicable': 'under construction'},
     'C19': {'level': 'other', 'claim': 'uc', 'level_note': 'uc', 'trusted': [], 'not_applicable': 'under construction'},
     'C20': {'level': 'other', 'claim': 'uc', 'level_note': 'uc', 'trusted': [], 'not_applicable': 'under construction'},
